@@ -159,22 +159,47 @@ def is_falsy_const(e: ast.AST) -> bool:
     return isinstance(e, ast.Constant) and not e.value
 
 
+def rewrite(node, fn):
+    """Bottom-up, structure-sharing rewrite: children first, then fn(node) -> node. Never mutates and
+    never copies parent links (a deepcopy would drag the whole module along through `_parent`)."""
+    if not isinstance(node, ast.AST):
+        return node
+    changed = False
+    vals = {}
+    for fld, old in ast.iter_fields(node):
+        if isinstance(old, list):
+            new = [rewrite(x, fn) if isinstance(x, ast.AST) else x for x in old]
+            if any(a is not b for a, b in zip(new, old)):
+                changed = True
+            vals[fld] = new
+        elif isinstance(old, ast.AST):
+            new = rewrite(old, fn)
+            if new is not old:
+                changed = True
+            vals[fld] = new
+        else:
+            vals[fld] = old
+    if changed:
+        n = type(node)(**vals)
+        if hasattr(node, "lineno"):
+            ast.copy_location(n, node)
+        node = n
+    return fn(node)
+
+
 def core(e: ast.AST) -> ast.AST:
     """Identity-normal form: `x if c else None` denotes x whenever it denotes anything; strip such
     guards (recursively) so that two spellings of 'the station of this base' compare equal."""
 
-    class T(ast.NodeTransformer):
-        def visit_IfExp(self, n):
-            n = self.generic_visit(n)
+    def f(n):
+        if isinstance(n, ast.IfExp):
             if is_falsy_const(n.orelse):
                 return n.body
             if is_falsy_const(n.body):
                 return n.orelse
-            return n
+        return n
 
-    import copy
-
-    return T().visit(copy.deepcopy(e))
+    return rewrite(e, f)
 
 
 def implied(test: ast.AST, pol: bool) -> List[Tuple[ast.AST, bool]]:
@@ -214,6 +239,29 @@ def implied(test: ast.AST, pol: bool) -> List[Tuple[ast.AST, bool]]:
 
     go(test, pol)
     return out
+
+
+def _exact(t: ast.AST, p: bool) -> bool:
+    """Is `implied(t, p)` equivalent to (not merely implied by) t having truthiness p?"""
+    if isinstance(t, ast.UnaryOp) and isinstance(t.op, ast.Not):
+        return _exact(t.operand, not p)
+    if isinstance(t, ast.BoolOp):
+        if isinstance(t.op, ast.And) == p:
+            return all(_exact(v, p) for v in t.values)
+        return False
+    if isinstance(t, ast.IfExp):
+        return False
+    return True
+
+
+def _known(t: ast.AST, p: bool, have: set) -> bool:
+    if not _exact(t, p):
+        return False
+    atoms = implied(t, p)
+    # the primary atom(s) only: drop the derived `$isnone(x) False` companions of truthy atoms
+    prim = [(a, pol) for a, pol in atoms if not (is_syn(a, "$isnone") and pol is False and any(
+        (b is not a) and pol2 is True and ast.dump(b) == ast.dump(a.args[0]) for b, pol2 in atoms))]
+    return bool(prim) and all((ast.dump(a), pol) in have for a, pol in prim)
 
 
 # ----------------------------------------------------------------------------- pattern matching
@@ -335,10 +383,68 @@ class Path:
         return getattr(self.end, "lineno", 0)
 
     def facts(self) -> List[Tuple[ast.AST, bool]]:
-        out = []
+        """Atoms that hold on this path: what each branch condition implies, closed under unit
+        propagation (`not (A and B)` with A known true gives `not B`; `A or B` with A known false
+        gives B)."""
+        cached = getattr(self, "_facts", None)
+        if cached is not None:
+            return cached
+        out: List[Tuple[ast.AST, bool]] = []
+        have = set()
+
+        def add(atoms):
+            new = False
+            for a, pol in atoms:
+                k = (ast.dump(a), pol)
+                if k not in have:
+                    have.add(k)
+                    out.append((a, pol))
+                    new = True
+            return new
+
+        pending = []  # (values, pol_that_one_of_them_must_have)
+        def collect(t, p):
+            # disjunctive residue of a condition: And false -> some conjunct false; Or true -> some disjunct true
+            if isinstance(t, ast.UnaryOp) and isinstance(t.op, ast.Not):
+                collect(t.operand, not p)
+            elif isinstance(t, ast.BoolOp) and isinstance(t.op, ast.And):
+                if p:
+                    for v in t.values:
+                        collect(v, True)
+                else:
+                    pending.append((t.values, False))
+            elif isinstance(t, ast.BoolOp) and isinstance(t.op, ast.Or):
+                if not p:
+                    for v in t.values:
+                        collect(v, False)
+                else:
+                    pending.append((t.values, True))
+
         for c in self.conds:
             if c.test is not None and isinstance(c.pol, bool):
-                out.extend(implied(c.test, c.pol))
+                add(implied(c.test, c.pol))
+                collect(c.test, c.pol)
+        changed = True
+        while changed and pending:
+            changed = False
+            for values, want in list(pending):
+                undecided = []
+                satisfied = False
+                for v in values:
+                    if _known(v, want, have):
+                        satisfied = True
+                        break
+                    if not _known(v, not want, have):
+                        undecided.append(v)
+                if satisfied:
+                    pending.remove((values, want))
+                    continue
+                if len(undecided) == 1:
+                    pending.remove((values, want))
+                    if add(implied(undecided[0], want)):
+                        changed = True
+                    collect(undecided[0], want)
+        self._facts = out
         return out
 
     def has_marker(self, pol: str) -> bool:
